@@ -6,4 +6,6 @@ val eqb : nat -> nat -> bool
 
 val leb : nat -> nat -> bool
 
+val ltb : nat -> nat -> bool
+
 val min : nat -> nat -> nat
